@@ -173,12 +173,26 @@ def coq_thorough_audit(ctx, prop_file):
 # ------------------------------------------------------------------ step 3: run the implementation (Go, overlay)
 def go_modfile(module):
     """copy go.mod/go.sum of the working tree to build/mod/<module>/ (never rewrite /repo)"""
-    d = os.path.join(ALT or BUILD, "mod", module.replace("/", "_"))
+    # one copy per driver process: the go command may rewrite the -modfile copy (and its go.sum), so two checks running at the same
+    # time must not share one
+    base = os.path.join(ALT or BUILD, "mod")
+    import threading
+    d = os.path.join(base, "%s.%d.%d" % (module.replace("/", "_"), threading.get_ident() % 1000003, os.getpid()))
     os.makedirs(d, exist_ok=True)
     for f in ("go.mod", "go.sum"):
         src = os.path.join(REPO, module, f)
         if os.path.exists(src):
-            shutil.copyfile(src, os.path.join(d, f))
+            tmp = os.path.join(d, f + ".tmp")
+            shutil.copyfile(src, tmp)
+            os.replace(tmp, os.path.join(d, f))
+    # forget the copies of drivers that are gone (best effort)
+    try:
+        for n in os.listdir(base):
+            pid = n.rsplit(".", 1)[-1]
+            if pid.isdigit() and int(pid) != os.getpid() and not os.path.exists("/proc/" + pid):
+                shutil.rmtree(os.path.join(base, n), ignore_errors=True)
+    except OSError:
+        pass
     return os.path.join(d, "go.mod")
 
 
